@@ -36,10 +36,12 @@ def lean_lines(items):
     return [V.sx(inner(t) if t[0] == "H" else t) for t, _, _ in items]
 
 
-def impl_lines(items, with_rebuild=False):
+def impl_lines(items, with_rebuild=False, csv_kwargs=None):
     """run on the real implementation; returns (lines, rebuilt) where rebuilt[i] is the answer of a
     freshly built index for idx lines (when the live index is valid), else None"""
     r = ImplRunner()
+    if csv_kwargs:
+        r.csv_kwargs = dict(csv_kwargs)
     out, reb = [], []
     try:
         for t, role, _ in items:
@@ -78,7 +80,7 @@ def attribute(case, role, i, after_error):
             props = ["C15", "C06"]
         if after_error:
             props = ["C11"] + props
-        if via:
+        if via and "C10" not in props:
             props.append("C10")
         return props
     # the operation's own answer
@@ -116,6 +118,13 @@ def compare_case(case, impl, model, spec, items, rebuilt=None):
       'correspondence'      implementation and model differ but the specification is met
       'index-drift'         live index differs from a rebuilt one while valid (C06 on the impl)"""
     prev_err = False
+    err_seen = False
+
+    def after_err(d):
+        if err_seen and d is not None and "C11" not in d["props"]:
+            d["props"] = d["props"] + ["C11"]
+        return d
+
     for k, (t, role, i) in enumerate(items):
         a = impl[k]
         m = model[k] if model is not None else None
@@ -124,34 +133,35 @@ def compare_case(case, impl, model, spec, items, rebuilt=None):
             continue
         if role == "op":
             if s is not None and a != s:
-                return dict(kind="impl-vs-spec", props=attribute(case, role, i, False), index=i,
-                            role=role, impl=a, model=m, spec=s)
+                return after_err(dict(kind="impl-vs-spec", props=attribute(case, role, i, False), index=i,
+                            role=role, impl=a, model=m, spec=s))
             if m is not None and a != m:
-                return dict(kind="correspondence", props=attribute(case, role, i, False), index=i,
-                            role=role, impl=a, model=m, spec=s)
+                return after_err(dict(kind="correspondence", props=attribute(case, role, i, False), index=i,
+                            role=role, impl=a, model=m, spec=s))
             prev_err = a.startswith("err")
+            err_seen = err_seen or prev_err
         elif role == "state":
             av, ac = split_state(a)
             if s is not None:
                 _, sc = split_state(s)
                 if ac != sc:
-                    return dict(kind="impl-vs-spec", props=attribute(case, role, i, prev_err),
-                                index=i, role=role, impl=a, model=m, spec=s)
+                    return after_err(dict(kind="impl-vs-spec", props=attribute(case, role, i, prev_err),
+                                index=i, role=role, impl=a, model=m, spec=s))
             if m is not None:
                 mv, mc = split_state(m)
                 if ac != mc:
-                    return dict(kind="correspondence", props=attribute(case, role, i, prev_err),
-                                index=i, role=role, impl=a, model=m, spec=s)
+                    return after_err(dict(kind="correspondence", props=attribute(case, role, i, prev_err),
+                                index=i, role=role, impl=a, model=m, spec=s))
                 if av != mv:
-                    return dict(kind="correspondence", props=["C06"], index=i, role="valid",
-                                impl=a, model=m, spec=s)
+                    return after_err(dict(kind="correspondence", props=["C06"], index=i, role="valid",
+                                impl=a, model=m, spec=s))
         elif role == "idx":
             if rebuilt is not None and rebuilt[k] is not None and rebuilt[k] != a:
-                return dict(kind="index-drift", props=["C06"], index=i, role=role, impl=a,
-                            model=m, spec="rebuilt: " + rebuilt[k], probe=V.sx(t))
+                return after_err(dict(kind="index-drift", props=["C06"], index=i, role=role, impl=a,
+                            model=m, spec="rebuilt: " + rebuilt[k], probe=V.sx(t)))
             if m is not None and a != m:
-                return dict(kind="correspondence", props=["C06"], index=i, role=role, impl=a,
-                            model=m, spec=None, probe=V.sx(t))
+                return after_err(dict(kind="correspondence", props=["C06"], index=i, role=role, impl=a,
+                            model=m, spec=None, probe=V.sx(t)))
     return None
 
 
@@ -167,7 +177,8 @@ class Batch:
         all_items, all_impl, all_reb, spans = [], [], [], []
         for case in cases:
             items = expand(case, self.probes)
-            impl, reb = impl_lines(items, self.with_rebuild)
+            impl, reb = impl_lines(items, self.with_rebuild,
+                                   {"encoding": case["enc"]} if case.get("enc") else None)
             spans.append((len(all_items), len(items)))
             all_items += items
             all_impl += impl
